@@ -116,6 +116,9 @@ class FileEntriesAdapter(Subconstruct):
         
         file_entries: List[FileEntry] = []
         for _i in range(max_table_entry_cnt):
+            # every entry occupies its own fixed-size slot, whatever the 
+            # previous (possibly damaged) entry consumed
+            stream.seek(_i * table_entry_size, SEEK_SET)
             if is_table_end(stream):
                 break
             file_entry_container: Union[FileEntryContainer, None] = None
